@@ -4,4 +4,4 @@ Extraction "model.ml" radix64_encode radix64_decode crc24_octets crc24_encode ar
   pktlen_encode pktlen_decode body_extract mpi_encode mpi_decode mpi_decode_sum sum16 string_encode string_decode
   s2k_count s2k_stream fpr_v4_input fpr_v5_input keyid_v4 keyid_v5
   pkesk_rsa pkesk_elg pkesk_ecdh sig_packet subpacket pub_packet sed_packet lit_packet uid_packet seipd_packet
-  mdc_packet aead_packet len packet_decode packet_of.
+  mdc_packet aead_packet len packet_decode packet_of prep_self prep_revoker prep_detached prep_detached_v5 prep_revocation prep_certification prep_timestamp_hash prep_timestamp_sig prep_attestation.
